@@ -51,8 +51,14 @@ inductive Runner where
 deriving DecidableEq, Repr
 
 structure St where
-  /-- `sequenceCounter` -/
+  /-- number of sequence numbers consumed by accepted blocks. The Go field `sequenceCounter`
+      is `counter` plus one while a submitter holds the turn (see `seqCounter`). -/
   counter : Nat := 0
+  /-- the submitter holding the submit turn (`submitSem`) with the item it has created:
+      its sequence number is allocated, the send on `submitChan` has not happened yet -/
+  turn : Option Item := none
+  /-- callers inside `Submit` that have not got the turn yet -/
+  waiters : Nat := 0
   /-- history: accepted submissions in order of acceptance -/
   subs : List Item := []
   /-- `submitChan` -/
@@ -84,6 +90,7 @@ structure St where
 deriving DecidableEq, Repr
 
 inductive Ev where
+  | enter | giveup | acq (x : Item)
   | sub (x : Item) | fail
   | dt (x : Item) | dp (x : Item) | dd (x : Item)
   | vt (x : Item) | vp (x : Item) | vd (x : Item)
@@ -102,8 +109,12 @@ def processed (s : St) : Nat :=
   | .inApply _ _ => s.nextSeq - 1
   | _ => s.nextSeq
 
-/-- `BlockPipeline.PendingCount` (after the `fix:` commit): accepted minus finished. -/
-def pendingCount (s : St) : Nat := s.counter - processed s
+/-- the Go field `sequenceCounter`: the submitter holding the turn has already added 1 -/
+def seqCounter (s : St) : Nat := s.counter + (if s.turn.isSome then 1 else 0)
+
+/-- `BlockPipeline.PendingCount` (after the `fix:` commit): `sequenceCounter - processedCount`.
+    A Submit that holds the turn (blocked on back-pressure) counts as pending. -/
+def pendingCount (s : St) : Nat := seqCounter s - processed s
 
 /-- `PendingCount` as it was: channel lengths + pending map + inFlight. -/
 def pendingCountLegacy (s : St) : Nat :=
@@ -124,17 +135,29 @@ def fwdStep (s : St) (z : Item) (sent : Bool) : Option St :=
   | _ => none
 
 def step (c : Cfg) (s : St) : Ev → Option St
-  -- Submit: the item is accepted by submitChan and keeps the sequence number
-  | .sub x =>
-    if s.started = true ∧ s.closed = false ∧ x.seq = s.counter then
-      some { s with subCh := x :: s.subCh, counter := s.counter + 1, subs := s.subs ++ [x] }
+  -- Submit. Callers take turns: `enter` (inside Submit, waiting for `submitSem`), `giveup`
+  -- (context expired / pipeline stopping / not started while waiting: returns an error),
+  -- `acq x` (got the turn, allocated the next sequence number, created the item),
+  -- `sub x` (submitChan accepted the item), `fail` (the holder gave up under back-pressure).
+  | .enter => some { s with waiters := s.waiters + 1 }
+  -- a waiter that gives up changes nothing but the number of waiters
+  | .giveup => if s.waiters > 0 then some { s with waiters := s.waiters - 1 } else none
+  | .acq x =>
+    if s.started = true ∧ s.closed = false ∧ s.turn = none ∧ s.waiters > 0 ∧ x.seq = s.counter then
+      some { s with turn := some x, waiters := s.waiters - 1 }
     else none
-  -- Submit returned an error (not started, context expired, pipeline stopping). The
-  -- started check precedes the allocation, also in the code before the repair.
+  | .sub x =>
+    if s.started = true ∧ s.closed = false ∧ x.seq = s.counter ∧ s.turn = some x then
+      some { s with subCh := x :: s.subCh, counter := s.counter + 1, subs := s.subs ++ [x], turn := none }
+    else none
+  -- The holder of the turn gives up: the sequence number goes back (repaired code); before
+  -- the repair it stayed allocated.
   | .fail =>
-    if c.legacy = true ∧ s.started = true then
-      some { s with counter := s.counter + 1, subs := s.subs ++ [⟨s.counter, false, false⟩] }
-    else some s
+    if s.turn.isSome = true then
+      (if c.legacy = true then
+        some { s with counter := s.counter + 1, subs := s.subs ++ [⟨s.counter, false, false⟩], turn := none }
+      else some { s with turn := none })
+    else none
   -- decode workers (StageWorkerPool.worker)
   | .dt x => if x ∈ s.subCh then some { s with subCh := s.subCh.erase x, decW := x :: s.decW } else none
   | .dp x =>
